@@ -123,6 +123,9 @@ pub struct ObjP {
     // derived
     pub toi: Option<u128>,
     pub tl: Option<u64>,
+    /// datagram length of the object's packets / of the packet carrying its last source symbol
+    pub pl: u64,
+    pub pll: u64,
 }
 
 impl Default for ObjP {
@@ -144,6 +147,8 @@ impl Default for ObjP {
             md5: true,
             toi: None,
             tl: None,
+            pl: 0,
+            pll: 0,
         }
     }
 }
@@ -259,9 +264,11 @@ impl SessP {
             );
             if with_derived {
                 s += &format!(
-                    " toi={} tl={}",
+                    " toi={} tl={} pl={} pll={}",
                     o.toi.map(|x| x.to_string()).unwrap_or("-".into()),
-                    o.tl.map(|x| x.to_string()).unwrap_or("-".into())
+                    o.tl.map(|x| x.to_string()).unwrap_or("-".into()),
+                    o.pl,
+                    o.pll
                 );
             }
         }
@@ -341,6 +348,12 @@ impl SessP {
                     None | Some(&"-") => None,
                     Some(x) => Some(x.parse().ok()?),
                 };
+                if let Some(x) = m.get("pl") {
+                    o.pl = x.parse().ok()?;
+                }
+                if let Some(x) = m.get("pll") {
+                    o.pll = x.parse().ok()?;
+                }
                 sp.objs.push(o);
             } else if sec == "f" || sec.starts_with("f ") {
                 for t in sec.split(' ').skip(1) {
